@@ -25,6 +25,17 @@ chk("C02", "h_rules",
     "Held on every state of every generated history (counts in evidence); undefined behaviour would abort the UBSan build, so 'no UB for material reachable by legal play' is observed on promotion storms up to 9 queens a side.",
     "refchess for move choice and lock-step board comparison; the harness' own 64-bit arithmetic for material signature/totals; engine's computeZobristHash for the hash",
     "DESIGN.md section 3 C02")
+chk("C03", "texel (real process, rel+asan)",
+    "runtime output monitor on real UCI searches: refchess judges bestmove/ponder/PV legality, strict line grammar, score ranges, multi-PV distinctness; ASan+UBSan slice",
+    "Held on every search run (400 quick / 2e4 thorough searches over the limit x option x network grid, 8 searches per process so hash/killer/history leftovers carry over). "
+    "The space of (position, limits, options) cannot be enumerated; exploration with an exact per-case oracle is the right level.",
+    "refchess for legality; the grammar in vlib/uci.py; synthetic networks instead of the (empty) shipped network",
+    "DESIGN.md section 3 C03")
+chk("C05", "texel (real process, asan+rel)",
+    "runtime session monitor: random command histories with random pacing against the real process under ASan+UBSan; offline checker over the recorded send/receive log (grammar, exactly-once readyok/bestmove, release ordering, silence after bestmove, exit status); isready-flood stress for line atomicity",
+    "Held on every recorded session (counts in evidence). Histories and pacing are sampled, not enumerated; a hang is a bounded-wait verdict (60 s exit watchdog), arrival-before-send comparisons make the ordering verdicts sound on a loaded machine.",
+    "timestamps taken by the reader thread; grammar in vlib/uci.py; Hash>128MB / Threads>8 not exercised",
+    "DESIGN.md section 3 C05")
 
 
 def main():
@@ -56,6 +67,8 @@ def main():
                    source_commits=HOOK_COMMITS,
                    add_only=True),
         engines=[
+            dict(name="texel", path="/verif/build/<variant>/texel", serves_properties=["C03", "C04", "C05", "C09", "C11", "C13", "C14"], kind_free_text="the real engine program: app/texel + texellib compiled from /repo in place, linked with src/common/netload.cpp (network chosen by $VERIF_NET)"),
+            dict(name="refchess-cli", path="/verif/src/common/refchess_cli.cpp", serves_properties=["C03", "C04", "C11", "C13"], kind_free_text="line-protocol front end of the independent rules oracle"),
             dict(name="h_rules", path="/verif/src/h_rules.cpp", serves_properties=["C01", "C02", "C17"], kind_free_text="in-process harness linking texellib + refchess oracle (rel and asan+ubsan builds)"),
         ],
         checks=checks,
